@@ -162,6 +162,26 @@ func runSvcChunk(r *h.Result, scs []*scenario, base int, judge func(*h.Result, *
 	var cases []any
 	for i, res := range results {
 		sc := scs[i]
+		if res.err != nil && res.timedOut {
+			// a deadline passed: clock-based. The op sequence ALONE, with 10× the time, decides (c0102_wait.go)
+			first := res
+			c0102Confirm(func(scale int) bool {
+				cp := *sc
+				cp.scale = scale
+				res = runScenario(&cp)
+				return res.err != nil && res.timedOut
+			})
+			if res.err != nil && res.timedOut {
+				r.Count("svc:deadline-missed-confirmed")
+				r.Violate("C01/service-call-never-returned",
+					fmt.Sprintf("%s service: %v (shown again by the op sequence alone with %d× the deadline); ops played: %s", sc.Kind, res.err,
+						c0102ConfirmScale, trunc(strings.Join(res.opsSoFar, ";"), 300)),
+					map[string]any{"stream": "svc", "scenario": sc, "ops_played": res.opsSoFar, "first_run": first.err.Error()})
+				continue
+			}
+			r.Count("svc:deadline-missed-not-confirmed")
+			results[i] = res
+		}
 		if res.err != nil {
 			return fmt.Errorf("scenario %d: %v", base+i, res.err)
 		}
@@ -285,6 +305,30 @@ func newHandlerRig(rng *h.Rng, attempts int, interval time.Duration, maxQueue in
 	return rig
 }
 
+// await: the answer of one push through this rig's handler, or the verdict that none will come (c0102AwaitAnswer: the
+// deadline passed, or every insert service is idle while the handler still waits)
+func (rig *handlerRig) await(done <-chan int, limit time.Duration) (code int, quiescent bool) {
+	var subs []*service.InsertServiceV2
+	for _, k := range kinds {
+		ss, as := rig.svcs[k].VerifSubServices()
+		subs = append(append(subs, ss...), as...)
+	}
+	code, _, quiescent = c0102AwaitAnswer(done, limit, subs, func() int {
+		n := 0
+		for _, k := range kinds {
+			rig.envs[k].mu.Lock()
+			n += rig.envs[k].nDo + rig.envs[k].nConn
+			rig.envs[k].mu.Unlock()
+		}
+		return n
+	})
+	return code, quiescent
+}
+
+// pushes that got no answer in this run, per stream: after two the stream has given its verdict and its remaining cases
+// are skipped (each would cost its deadline again)
+var c01NoAnswer = map[string]int{}
+
 func (rig *handlerRig) stop() {
 	for _, s := range rig.svcs {
 		s.Stop()
@@ -346,12 +390,16 @@ func c01HandlerSeq(r *h.Result, rng *h.Rng, n int) error {
 			body = []byte(`{"streams":[{"stream":{"a":"b"},"values":[["1"`)
 			chunks = "E"
 		}
+		if c01NoAnswer["handler-seq"] >= 2 {
+			r.Count("handler-seq:skipped-after-two-unanswered-pushes")
+			rig.stop()
+			continue
+		}
 		done := make(chan int, 1)
 		go func() { done <- rig.push(body) }()
-		code := -1
-		select {
-		case code = <-done:
-		case <-time.After(20 * time.Second):
+		code, _ := rig.await(done, 20*time.Second)
+		if code < 0 {
+			c01NoAnswer["handler-seq"]++
 		}
 		rig.stop()
 		status := "failure"
@@ -407,7 +455,7 @@ func c01HandlerSeq(r *h.Result, rng *h.Rng, n int) error {
 			}
 		}
 		if status == "hang" {
-			r.Violate("C01/no-answer", fmt.Sprintf("push with attempts=%d, series outcomes %s, samples outcomes %s got no answer within 20 s", attempts, tsS, splS),
+			r.Violate("C01/no-answer", fmt.Sprintf("push with attempts=%d, series outcomes %s, samples outcomes %s got no answer (within 20 s, or while every insert service was idle with nothing queued)", attempts, tsS, splS),
 				map[string]any{"stream": "handler-seq", "attempts": attempts, "ts": tsS, "spl": splS})
 		}
 	}
@@ -440,12 +488,16 @@ func c01HandlerChunks(r *h.Result, rng *h.Rng, n int) {
 		}
 		rig := newHandlerRig(rng.Fork(), attempts, time.Millisecond, 0, 1, 0, 0, 0, map[string][]bool{"samples": script})
 		body := lokiBody(uint64(3000000+i), toks)
+		if c01NoAnswer["handler-chunks"] >= 2 {
+			r.Count("handler-chunks:skipped-after-two-unanswered-pushes")
+			rig.stop()
+			continue
+		}
 		done := make(chan int, 1)
 		go func() { done <- rig.push(body) }()
-		code := -1
-		select {
-		case code = <-done:
-		case <-time.After(60 * time.Second):
+		code, _ := rig.await(done, 60*time.Second)
+		if code < 0 {
+			c01NoAnswer["handler-chunks"]++
 		}
 		rig.stop()
 		splEnv := rig.envs["samples"]
@@ -477,7 +529,7 @@ func c01HandlerChunks(r *h.Result, rng *h.Rng, n int) {
 				map[string]any{"stream": "handler-chunks", "attempts": attempts, "samples_do_outcomes": sc, "lines": lines, "code": code, "missing": missing})
 		}
 		if code < 0 {
-			r.Violate("C01/no-answer/multi-chunk", fmt.Sprintf("push of %d lines, attempts=%d, outcomes %s got no answer within 60 s", lines, attempts, sc),
+			r.Violate("C01/no-answer/multi-chunk", fmt.Sprintf("push of %d lines, attempts=%d, outcomes %s got no answer (within 60 s, or while every insert service was idle with nothing queued)", lines, attempts, sc),
 				map[string]any{"stream": "handler-chunks", "attempts": attempts, "samples_do_outcomes": sc, "lines": lines})
 		}
 		if i == 0 {
@@ -677,6 +729,9 @@ func c01(r *h.Result, rng *h.Rng, tier string, replay string) error {
 	var rep *scenario
 	if replay != "" {
 		rep = loadReplayScenario(replay)
+		if doc := loadReplayDoc(replay); rep != nil && doc != nil && doc["stream"] == "inflight" {
+			return c02Inflight(r, rng.Fork(), 0, rep)
+		}
 		if rep == nil {
 			if doc := loadReplayDoc(replay); doc != nil {
 				switch doc["stream"] {
@@ -699,6 +754,13 @@ func c01(r *h.Result, rng *h.Rng, tier string, replay string) error {
 	}
 	if rep != nil {
 		return nil
+	}
+	nFlight := 80
+	if tier != "quick" {
+		nFlight = 1000
+	}
+	if err := c02Inflight(r, rng.Fork(), nFlight, nil); err != nil {
+		return err
 	}
 	if err := c01Retry(r, rng.Fork(), nRetry); err != nil {
 		return err
